@@ -142,6 +142,11 @@ class DatabaseService(Service, discriminator="database-service"):
             )
             return False
 
+        # a copy left under downloads/ by an earlier restore would make the FTP client discard the incoming file (it does
+        # not write over an existing file), and that stale copy would then be restored instead of the backup: remove it
+        if self.file_system.get_file(folder_name="downloads", file_name="database.db") is not None:
+            self.file_system.delete_file(folder_name="downloads", file_name="database.db")
+
         # retrieve backup file from backup server
         response = ftp_client_service.request_file(
             src_folder_name=str(self.uuid),
